@@ -1391,7 +1391,7 @@ def xml_safe(text):
 
 def get_test_class_name(test):
     """Compute the test class name from the test object."""
-    return f'{test.__module__}.{test.__class__.__name__}'
+    return f'{test.__module__}.{test.__class__.__qualname__}'
 
 
 def filename_to_suite_name_parts(filename):
